@@ -72,8 +72,7 @@ theorem cond_noGsl_mono (o : Oracle) (a : Args) (m : Mode) (e : Env) (cnd : Cond
     | intArg i => exact (checkIntArg_ok a m _ c).mono
     | uintArg i => exact (checkUintArg_ok a m _ c).mono
     | zeroFunc i => exact (checkZeroFuncArgs_ok a m _ c).mono
-    | derivArg => exact (checkDerivArg_ok o c).mono
-    | bessel => exact (checkBesselArgs_ok o a m c).mono
+    | bessel f => exact (checkBesselArgs_ok a m f c).mono
     | coupling => exact (checkCouplingFrom_ok a m a.n 0 c).mono
   | derivs => intro _ c; exact ErrMono.refl c
   | hes => intro _ c; exact ErrMono.refl c
